@@ -210,13 +210,33 @@ def run(out, drv, info):
                     out.disagreement('chunk lengths differ between model and implementation',
                                      {'case': case, 'model': m['chunks'], 'impl': [len(c) for c in ch]})
                 # split independence: the model's greedy prefix (a function of the stream only) must be a prefix of the impl result,
-                # and must cover every chunk outside the tail zone
+                # and must cover every chunk outside the tail zone.  The reference here is the MODEL's (it is empty / wrong when the
+                # translation of next_cut is not recognised), so a mismatch is a broken tie; it becomes a concrete violation only
+                # with an implementation-only witness: the same stream handed to the implementation as ONE piece / byte by byte
+                # is cut differently outside the tail zone.
                 if valid(mn, mx) and m.get('greedy') is not None:
                     g = m['greedy']
                     lens = [len(c) for c in ch]
                     if lens[:len(g)] != g or len(head_outside_tail(ch, len(s), mx)) > len(g):
-                        out.violation('chunker:split-dependence', 'chunks outside the tail zone differ from the segmentation-independent greedy cut',
-                                      {'kind': 'chunk.all', 'case': case, 'greedy': g, 'observed_chunk_lengths': lens})
+                        head = head_outside_tail(ch, len(s), mx)
+                        witness = None
+                        for ps_ref in ([s], [s[i:i + 1] for i in range(len(s))]):
+                            try:
+                                ref = impl_chunks(mn, mx, bytes.fromhex(key), ps_ref)
+                            except Exception:  # noqa: BLE001
+                                continue
+                            out.evaluations += 1
+                            if head_outside_tail(ref, len(s), mx) != head:
+                                witness = (ps_ref, ref)
+                                break
+                        if witness is not None:
+                            out.violation('chunker:split-dependence', 'two segmentations of one stream disagree outside the tail zone',
+                                          {'kind': 'resplit', 'min': mn, 'max': mx, 'key': key, 'pieces_a': [p.hex() for p in ps],
+                                           'pieces_b': [p.hex() for p in witness[0]], 'a': lens, 'b': [len(c) for c in witness[1]]})
+                        else:
+                            out.disagreement('chunks outside the tail zone differ from the model\'s segmentation-independent greedy cut '
+                                             '(the implementation itself cuts the stream alike as one piece and byte by byte)',
+                                             {'case': case, 'greedy': g, 'impl': lens})
     # ---- split independence / determinism directly on the implementation (second segmentation, heap perturbation, reuse)
     r2 = rng_for(out.seed, 'C10-resplit')
     for idx in range(0, len(cases), 3 if quick else 2):
@@ -342,6 +362,15 @@ def replay(path, drv):
         bad = direct_oracle(c['min'], c['max'], b''.join(ps), ps, ch)
         print('chunks', [len(x) for x in ch], 'oracle:', bad)
         return 1 if bad else 0
+    if rp.get('kind') == 'resplit':
+        pa = [bytes.fromhex(x) for x in rp['pieces_a']]
+        pb = [bytes.fromhex(x) for x in rp['pieces_b']]
+        key = bytes.fromhex(rp['key'])
+        ca, cb = impl_chunks(rp['min'], rp['max'], key, pa), impl_chunks(rp['min'], rp['max'], key, pb)
+        n = len(b''.join(pa))
+        ha, hb = head_outside_tail(ca, n, rp['max']), head_outside_tail(cb, n, rp['max'])
+        print('outside the tail zone:', ha[:12], 'vs', hb[:12])
+        return 1 if ha != hb else 0
     if rp.get('kind') == 'reuse':
         from replicat.utils import adapters as _ad
         ch = _ad.gclmulchunker(min_length=rp['min'], max_length=rp['max'])
